@@ -829,7 +829,7 @@ func init() {
 		pkt := buildClientPacket(c.ver, a[1:])
 		if a[1] == "PUBLISH" {
 			m := kvs(a[2:])
-			if _, seen := b.pubEff[m["p"]]; !seen && m["p"] != "" {
+			if _, seen := b.pubEff[m["p"]]; !seen && m["p"] != "" && m["p"] != "-" {
 				me := 0
 				if c.ver == 5 {
 					me = kvInt(m, "me", 0)
